@@ -483,6 +483,9 @@ func execScenario(sc *Scenario, opt lib.GenOptions, withTrace bool) *ExecResult 
 	curBundles := func() []*lib.Bundle { return line.cg.Bundles[:len(chain)] }
 	// afterOp: the per-operation event oracle of QueryEach scenarios
 	afterOp := func(when string) {
+		if sc.QueryEach || !sc.LightModel {
+			r.Trace.checkpointOp(a, u)
+		}
 		if !sc.QueryEach || len(chain) == 0 {
 			return
 		}
@@ -576,7 +579,7 @@ func execScenario(sc *Scenario, opt lib.GenOptions, withTrace bool) *ExecResult 
 		}
 		r.op("A.store main[%d] %s", num, specSummary(spec))
 		chain = append(chain, spec)
-		if num >= W-2 || i == len(sc.Main)-1 {
+		if num >= W-2 || i == len(sc.Main)-1 || sc.Base == nil {
 			afterOp(fmt.Sprintf("after storing main block %d", num))
 		}
 	}
